@@ -68,8 +68,7 @@ pub struct Gen {
     pub typed_values: Vec<(u32, NumTy)>,
     pub lit: LitStyle,
     /// force the first operand of this kind to this value (systematic enumerant passes)
-    pub force: Option<(K, u32)>,
-    pub force_hit: bool,
+    pub forces: Vec<(K, u32)>,
     /// allow nested OpSpecConstantOp payloads outside the spec's list (ordinary operand kinds only)
     pub max_variadic: usize,
     /// string to use next (systematic string-length passes)
@@ -78,7 +77,7 @@ pub struct Gen {
 
 impl Gen {
     pub fn new(start_id: u32) -> Gen {
-        Gen { next_id: start_id, types: TypeModel::new(), num_types: vec![], typed_values: vec![], lit: LitStyle::Marker, force: None, force_hit: false, max_variadic: 3, force_string: None }
+        Gen { next_id: start_id, types: TypeModel::new(), num_types: vec![], typed_values: vec![], lit: LitStyle::Marker, forces: vec![], max_variadic: 3, force_string: None }
     }
     pub fn fresh(&mut self) -> u32 {
         let v = self.next_id;
@@ -146,11 +145,8 @@ impl Gen {
     }
 
     fn enum_value(&mut self, rng: &mut Rng, k: K) -> u32 {
-        if let Some((fk, fv)) = self.force {
-            if fk == k && !self.force_hit {
-                self.force_hit = true;
-                return fv;
-            }
+        if let Some(pos) = self.forces.iter().position(|(fk, _)| *fk == k) {
+            return self.forces.remove(pos).1;
         }
         let d = db();
         match decls::kind_class(k) {
